@@ -78,6 +78,10 @@ def run(ctx):
                 r4.violation("serde_lexpr::" + fn.path, "non-data-error",
                              "%s converts an io/parse error into serde_lexpr::Error inside the value deserializer: the "
                              "result would not be a data-category error" % fn.path, fn.loc(t.get("line")))
+    # "serializing x and deserializing again returns x": the numeric serializer methods store the number they are given
+    # (shared with C04)
+    from . import c04
+    c04.widen(ctx.rule("R-WIDEN", "numeric serializer methods keep the value: only value-preserving widening on the way"), serde)
     inv = serde.fn("value::de::invalid_value")
     if inv is None:
         r4.anchor_missing("value::de::invalid_value")
